@@ -5,7 +5,7 @@ From Coq Require Import ZArith Reals Floats Lia Lra List Bool Arith.
 From Flocq Require Import Core.Core IEEE754.BinarySingleNaN IEEE754.PrimFloat.
 From OV Require Import Base.Panic Base.Arith gen.Params Model.Poly Model.Complex Proofs.Poly Proofs.ParDotFloat
                        Inst.FloatInst Proofs.PolyExact Proofs.PolyExactF Proofs.PolyExactB Proofs.PolyExactC
-                       Proofs.PolyExactDiv Proofs.PolyExactDivZ Proofs.PolyExactDivF.
+                       Proofs.PolyExactDiv Proofs.PolyExactDivZ Proofs.PolyExactDivF Proofs.PolyExactDivC.
 Import ListNotations.
 Local Open Scope Z_scope.
 
@@ -117,22 +117,60 @@ Lemma exU2_exact : Forall2 ExactW exU2 exU2z.  Proof. repeat constructor; exactw
 Lemma exV2_exact : Forall2 ExactW exV2 exV2z.  Proof. repeat constructor; exactw. Qed.
 
 (* one pass of the size condition, by computation *)
+Ltac dfit_tac := first [exact I | (split; vm_compute; reflexivity)].
 Ltac body_fits_tac :=
   let c := fresh "c" in let E := fresh "E" in
-  intros c E; vm_compute in E; injection E as <-; cbv zeta;
-  split; [reflexivity|]; split; [fits|]; split; [apply (conv_fits_of_pmul (ZA := AZ) Z.abs); fits|fits].
-Ltac eval_if :=
-  match goal with |- if ?b then _ else _ => let v := eval vm_compute in b in change b with v; cbv iota end.
+  let rl := fresh "rl" in let vl := fresh "vl" in let E1 := fresh "E" in let E2 := fresh "E" in
+  intros rl vl c E1 E2 E; vm_compute in E1; vm_compute in E2; injection E1 as <-; injection E2 as <-;
+  vm_compute in E; injection E as <-; cbv zeta;
+  split; [dfit_tac|]; split; [reflexivity|]; split; [fits|]; split; [apply conv_fits_of_pmul; fits|fits].
+(* loop_fits for EVERY fuel, by stepping through the integer run *)
 Ltac loop_fits_tac :=
-  match goal with |- @loop_fits ?ZA ?N ?f ?c ?q ?r ?v => change (@loop_fits ZA N (S (Nat.pred f)) c q r v) end;
-  cbn [loop_fits]; eval_if;
-  first [exact I |
-    split; [body_fits_tac|
-      let qr := fresh "qr" in let E := fresh "E" in
-      intros qr E; vm_compute in E; injection E as <-; cbn [fst snd]; eval_if; loop_fits_tac]].
+  first [ apply loop_fits_stop; vm_compute; reflexivity |
+    match goal with |- @loop_fits _ _ _ ?f _ _ _ _ =>
+      let f' := fresh "fuel" in destruct f as [|f'];
+      [apply loop_fits_0 |
+       apply loop_fits_step; [body_fits_tac |
+         let qr := fresh "qr" in let E := fresh "E" in
+         intros qr E; vm_compute in E; injection E as <-; cbn [fst snd]; loop_fits_tac]] end ].
 
-Lemma exU2_fits : polydiv_fits (ZA := AZ) Z.abs exU2z exV2z.
-Proof. unfold polydiv_fits, exU2z, exV2z. loop_fits_tac. Qed.
+Lemma exU2_fits : polydiv_fits (ZA := AZ) Z.abs (fun _ _ => True) exU2z exV2z.
+Proof. unfold polydiv_fits, exU2z, exV2z. generalize (S POLYDIV_MAX). intros fuel. loop_fits_tac. Qed.
+
+(* Complex<f64>: u = (2-i) + 3i x + (1+i) x^2 + 2 x^3 by the monic v = (1+i) + x *)
+Definition exCU : list (cplx AF) := [cF 2 (-1); cF 0 3; cF 1 1; cF 2 0]%float.
+Definition exCUz : list (cplx AZ) := [cZ 2 (-1); cZ 0 3; cZ 1 1; cZ 2 0].
+Definition exCV : list (cplx AF) := [cF 1 1; cF 1 0]%float.
+Definition exCVz : list (cplx AZ) := [cZ 1 1; cZ 1 0].
+Lemma exCU_exact : Forall2 CExactW exCU exCUz.  Proof. repeat constructor; exactw. Qed.
+Lemma exCV_exact : Forall2 CExactW exCV exCVz.  Proof. repeat constructor; exactw. Qed.
+(* the three passes of the Gaussian-integer run, one by one *)
+Definition exCq1 : list (cplx AZ) := [cZ 0 0; cZ 0 0; cZ 2 0].
+Definition exCr1 : list (cplx AZ) := [cZ 2 (-1); cZ 0 3; cZ (-1) (-1)].
+Definition exCq2 : list (cplx AZ) := [cZ 0 0; cZ (-1) (-1); cZ 2 0].
+Definition exCr2 : list (cplx AZ) := [cZ 2 (-1); cZ 0 5].
+Definition exCq3 : list (cplx AZ) := [cZ 0 5; cZ (-1) (-1); cZ 2 0].
+Definition exCr3 : list (cplx AZ) := [cZ 7 (-6)].
+Lemma exC_pass1 : polydiv_body (A := AZC) [] exCUz exCVz = Ok (exCq1, exCr1).  Proof. vm_compute; reflexivity. Qed.
+Lemma exC_pass2 : polydiv_body (A := AZC) exCq1 exCr1 exCVz = Ok (exCq2, exCr2).  Proof. vm_compute; reflexivity. Qed.
+Lemma exC_pass3 : polydiv_body (A := AZC) exCq2 exCr2 exCVz = Ok (exCq3, exCr3).  Proof. vm_compute; reflexivity. Qed.
+Lemma exC_fits1 : body_fits (ZA := AZC) cn1 cDfit [] exCUz exCVz.
+Proof. unfold exCUz, exCVz. body_fits_tac. Qed.
+Lemma exC_fits2 : body_fits (ZA := AZC) cn1 cDfit exCq1 exCr1 exCVz.
+Proof. unfold exCq1, exCr1, exCVz. body_fits_tac. Qed.
+Lemma exC_fits3 : body_fits (ZA := AZC) cn1 cDfit exCq2 exCr2 exCVz.
+Proof. unfold exCq2, exCr2, exCVz. body_fits_tac. Qed.
+Lemma exCU_fits : polydiv_fits (ZA := AZC) cn1 cDfit exCUz exCVz.
+Proof.
+  unfold polydiv_fits. generalize (S POLYDIV_MAX). intros [|[|[|f]]]; try apply loop_fits_0.
+  - apply loop_fits_step; [exact exC_fits1|]. intros qr E. apply loop_fits_0.
+  - apply loop_fits_step; [exact exC_fits1|]. intros qr E. rewrite exC_pass1 in E. injection E as <-. cbn [fst snd].
+    apply loop_fits_step; [exact exC_fits2|]. intros qr E. apply loop_fits_0.
+  - apply loop_fits_step; [exact exC_fits1|]. intros qr E. rewrite exC_pass1 in E. injection E as <-. cbn [fst snd].
+    apply loop_fits_step; [exact exC_fits2|]. intros qr E. rewrite exC_pass2 in E. injection E as <-. cbn [fst snd].
+    apply loop_fits_step; [exact exC_fits3|]. intros qr E. rewrite exC_pass3 in E. injection E as <-. cbn [fst snd].
+    apply loop_fits_stop. vm_compute. reflexivity.
+Qed.
 
 (* an inexact leading-coefficient division: x^2 by 1 + 3x.  The integer division does not go through (1/3), and the
    float answer is not integer-valued *)
